@@ -160,8 +160,10 @@ PROPS = {
         groups=[
             dict(pkg=DIFF, harness="harness/diff", shared="harness/shared", extra=[["pkg/netpol/connlist", "harness/extra_connlist"]],
                  quick=ev("^ZZ_C04_", "two worlds: workloads a,b (side 2 optionally with a new workload or without b), each side no policy or a policy with egress to a symbolic ipBlock "
-                          "(prefix lengths {0,24}; except on side 1) and to app=b, port shapes per rule; one symbolic external address and all workload pairs checked against the four diff lists; diff(A,A)",
-                          "more than one ipBlock per side; other prefix lengths; ingress-controller lines; output formats", models=40),
+                          "(prefix lengths {0,24}; except on side 1) and to app=b, port shapes per rule; TwoBlocks: two symbolic /24 blocks with different ports on one side against one block on the other; "
+                          "SameNameIngress: workloads named a in two namespaces governed by the same policy, ranges as sources or destinations; "
+                          "one symbolic external address and all workload pairs checked against the four diff lists; diff(A,A)",
+                          "more than two ipBlocks per side; other prefix lengths; ingress-controller lines; output formats", models=40),
                  thorough=ev("^ZZ_C04_", "prefix lengths {0,1,8,24,31,32} + all 33 for one CIDR, excepts on both sides, 3 port shapes per rule", "more ipBlocks per side", models=300, maxpaths=2000000)),
         ],
     ),
@@ -172,7 +174,24 @@ PROPS = {
             dict(pkg=CONNLIST, harness="harness/connlist", shared="harness/shared",
                  quick=ev("^ZZ_C13_", "ConnlistFromResourceInfos on good resource infos plus <=2 bad documents of 3 kinds (unused kind, non-unstructured object, failing schema conversion) at every position, stopOnError on/off; "
                           "connections compared with the clean input by the solver (symbolic policy range); severe errors counted",
-                          "ConnlistFromDirPath / file scanning; diff variant; more than 2 bad documents", models=40)),
+                          "ConnlistFromDirPath / file scanning; more than 2 bad documents", models=40)),
+            dict(pkg=DIFF, harness="harness/diff", shared="harness/shared", extra=[["pkg/netpol/connlist", "harness/extra_connlist"]],
+                 quick=ev("^ZZ_C13_", "ConnDiffFromResourceInfos on two good inputs (symbolic policy ranges) plus <=1 (thorough: <=2) bad documents of 3 kinds in either input at either end, "
+                          "optionally a document causing a fatal error (ipBlock that is not a CIDR) at the end of either input, stopOnError on/off; diff rows compared with the clean diff by the solver; "
+                          "severe errors counted; fatal => error and no result",
+                          "ConnDiffFromDirPaths / file scanning", models=40)),
+        ],
+    ),
+    "C14": dict(
+        assumptions=[VALIDITY, "oracle-free: only relations between two runs of the real engine are asserted (no reference semantics)"],
+        groups=[
+            dict(pkg=EVAL, harness="harness/eval", shared="harness/shared",
+                 quick=ev("^ZZ_C14_", "4 workloads in 2 namespaces; (a) a policy (2 selectors x 4 peer shapes x 2 port shapes x direction) plus one added rule (5 peer shapes incl. symbolic CIDR with <=1 except, prefix lengths {0,24,32}; 3 port shapes) in a direction it governs: never removes; "
+                          "(b-d) adding a second policy (3 selectors x 4 peers x 2 ports x direction) with/without a first one: additive when all its pods were governed, restrictive when none was, unselected pairs unchanged; "
+                          "(e) 5 equivalent spellings (matchLabels/In, range/two adjacent ranges at a symbolic split, CIDR/two halves for prefix lengths {0,8,24,31}, one policy/two policies, explicit/defaulted policyTypes). "
+                          "Compared at every ordered workload pair and workload<->symbolic IPv4 address, 3 protocols, symbolic port",
+                          "admin policies in the metamorphic relations; more rules per policy; IPv6", models=30),
+                 thorough=ev("^ZZ_C14_", "as quick with the C01 reduced generator (rules in both directions, 5 peer and 5 port shapes) for every policy", "more than two policies", models=200, wall=3000)),
         ],
     ),
 }
